@@ -41,6 +41,11 @@ ASSUMPTIONS = [
     "when several arguments of one call fail, or a failing argument meets a re-entered function, "
     "any of the applicable error codes is accepted",
     "duplicate parameter names and wrong argument counts are not generated (unspecified)",
+    "a DEFtype executed between DEF FN and the call (14% of cases): the manual does not say when an "
+    "unsigiled parameter name gets its type, only that the default type applies 'when a variable "
+    "name is used' and that the expression is evaluated 'with the supplied parameters substituted'; "
+    "the result is asserted when typing all names at the call and typing the parameter names at the "
+    "DEF FN (consistently in list and body) give the same result, otherwise only the variables are",
     "variables are observed through Session.get_variable (doubles through a Python float)",
 ]
 
@@ -128,8 +133,12 @@ def small_dyadic(v):
 
 
 class Ref(object):
-    def __init__(self, case, soft_is_hard):
+    def __init__(self, case, soft_is_hard, early_params=False):
         self.soft_is_hard = soft_is_hard
+        # alternative reading for a DEFtype between DEF FN and call: names of the parameter list,
+        # and their occurrences in that function's body, keep the type they had at the DEF FN
+        self.early_params = early_params
+        self.early = dict(case['deftypes'])
         self.unspec = None                 # first reason why the value is not asserted
         self.soft = None                   # first soft error (message printed, evaluation goes on)
         self.deftypes = dict(case['deftypes'])
@@ -148,7 +157,10 @@ class Ref(object):
         for name, v in case['globals']:
             self.globals[name] = v
 
-    def r(self, name):
+    def r(self, name, fn=None):
+        if (self.early_params and fn is not None and name[-1] not in '%!#$'
+                and name in fn['params']):
+            return resolve(name, self.early)
         return resolve(name, self.deftypes)
 
     def note(self, why):
@@ -163,7 +175,7 @@ class Ref(object):
         if k == 's':
             return ('s', e[1])
         if k == 'v':
-            name = self.r(e[1])
+            name = self.r(e[1], active[-1] if active else None)
             if name in env:
                 return env[name]
             return ('s', '') if name[-1] == '$' else ('n', Fraction(0))
@@ -216,8 +228,8 @@ class Ref(object):
             self.gc_ran = True
             for f in active:
                 for p in f['params']:
-                    if self.r(p)[-1] == '$':
-                        self.gc_vars.add(self.r(p))
+                    if self.r(p, f)[-1] == '$':
+                        self.gc_vars.add(self.r(p, f))
             self.note('fre-value')
             return ('n', Fraction(60000))
         if k == 'call':
@@ -231,7 +243,10 @@ class Ref(object):
             raise Err({18})
         self.calls += 1
         self.maxdepth = max(self.maxdepth, len(active) + 1)
-        params = [self.r(p) for p in f['params']]
+        params = [self.r(p, f) for p in f['params']]
+        if len(set(params)) < len(params):
+            self.note('duplicate-parameters')
+        cur = active[-1] if active else None
         args = []
         errs = set()
         seen_string = False
@@ -244,7 +259,7 @@ class Ref(object):
                 if seen_string:
                     self.leak = True
                 args.append(None)
-            if a[0] in ('s', 'cat') or (a[0] == 'v' and self.r(a[1])[-1] == '$') or (
+            if a[0] in ('s', 'cat') or (a[0] == 'v' and self.r(a[1], cur)[-1] == '$') or (
                     a[0] == 'call' and self.r(a[1])[-1] == '$'):
                 seen_string = True
         if any(f is g for g in active):
@@ -257,16 +272,17 @@ class Ref(object):
         # after that parameter was overwritten; a body that is a bare parameter of the function's
         # own type is read after the parameter was restored
         for k_, a in enumerate(e[2]):
-            if a[0] == 'v' and self.r(a[1]) in params[:k_] and self.r(a[1])[-1] == params[k_][-1]:
+            if a[0] == 'v' and self.r(a[1], cur) in params[:k_] and (
+                    self.r(a[1], cur)[-1] == params[k_][-1]):
                 self.known_result_taint = True
         body = f['body']
-        if body[0] == 'v' and self.r(body[1])[-1] == fname[-1]:
+        if body[0] == 'v' and self.r(body[1], f)[-1] == fname[-1]:
             # the body's value is the variable itself; it is a parameter of this function or of
             # one that is being evaluated further out, and will be restored before it is used
             bound = set(params)
             for g in active:
-                bound.update(self.r(p) for p in g['params'])
-            if self.r(body[1]) in bound:
+                bound.update(self.r(p, g) for p in g['params'])
+            if self.r(body[1], f) in bound:
                 self.known_result_taint = True
         for p in params:
             if p in self.globals:
@@ -347,13 +363,8 @@ def as_exact(x):
     return Fraction(x)
 
 
-def check_case(case):
-    res = Result()
-    route = case['route']
-    # the four DEF FN findings were fixed in bdb77144: their regions are asserted like any other
-    # (own bucket keys kept); 'strict': False would skip them again
-    strict = bool(case.get('strict', True))
-    ref = Ref(case, soft_is_hard=(route == 'trap'))
+def expectation(case, route, early_params):
+    ref = Ref(case, soft_is_hard=(route == 'trap'), early_params=early_params)
     genv = {}
     for name, v in case['globals']:
         genv[name] = ('s', v) if isinstance(v, str) else ('n', Fraction(v))
@@ -362,13 +373,41 @@ def check_case(case):
     except Err as x:
         # a soft error noted in another argument of the failing call may be printed first
         want = ('err', x.codes | ({ref.soft} if ref.soft is not None else set()))
-    if case.get('late'):
-        want = ('unspec', 'late-deftype')
-    elif ref.unspec == 'soft-error' and ref.soft is not None:
+    if ref.unspec == 'soft-error' and ref.soft is not None:
         if want[0] == 'val':
             want = ('soft', ref.soft)
     elif ref.unspec is not None:
         want = ('unspec', ref.unspec)
+    return ref, want
+
+
+def same_want(a, b):
+    if a[0] != b[0]:
+        return False
+    if a[0] == 'err':
+        return set(a[1]) == set(b[1])
+    return a[1] == b[1]
+
+
+def check_case(case):
+    res = Result()
+    route = case['route']
+    # the four DEF FN findings were fixed in bdb77144: their regions are asserted like any other
+    # (own bucket keys kept); 'strict': False would skip them again
+    strict = bool(case.get('strict', True))
+    ref, want = expectation(case, route, False)
+    if case.get('late'):
+        # a DEFtype executed between DEF FN and call.  The manual: the default type is "assumed if
+        # no sigil is specified when a variable name is used", and the expression "is evaluated
+        # with the supplied parameters substituted" - so parameter list and body must agree on the
+        # variable, whichever moment fixes its type.  The result is asserted when both consistent
+        # readings (all names typed at the call; parameter names typed at the DEF FN) agree.
+        _, want_b = expectation(case, route, True)
+        if want[0] == 'unspec' or want_b[0] == 'unspec' or not same_want(want, want_b):
+            want = ('unspec', 'late-deftype-readings-differ' if want[0] != 'unspec' and
+                    want_b[0] != 'unspec' else want[1] if want[0] == 'unspec' else want_b[1])
+        else:
+            res.label('late-deftype-asserted')
     lines, rsig = program_lines(case, route)
     res.label('route.' + route)
     res.label('want.' + ('err.' + '/'.join(str(c) for c in sorted(want[1])) if want[0] == 'err'
@@ -570,6 +609,12 @@ class Builder(object):
                     seen.add(r)
                     ps.append(sp)
             self.params.append(ps)
+        for letter in self.late:
+            # make the late DEFtype bite: the bare letter is a parameter of the first function
+            ps = self.params[0]
+            if resolve(letter, self.deftypes) not in [resolve(q, self.deftypes) for q in ps]:
+                ps.insert(0, letter)
+                del ps[4:]
 
     def r(self, name):
         return resolve(name, self.deftypes)
@@ -699,6 +744,12 @@ REGRESSIONS = [
     # a DEFtype after the definition: the parameter is created by the call and removed again
     _case([['X!', 2]], [{'name': 'A', 'params': ['X'], 'body': ['+', ['v', 'X'], ['c', '1']]}],
           ['call', 'A', [['c', '7']]], late={'X': '%'}),
+    _case([['X%', 7]], [{'name': 'F', 'params': ['X'],
+                         'body': ['+', ['*', ['v', 'X'], ['c', '2']], ['c', '1']]}],
+          ['call', 'F', [['c', '10']]], route='prog', late={'X': '%'}),
+    _case([['X!', 2.5], ['X$', 'glob']], [{'name': 'F$', 'params': ['X'],
+                                          'body': ['cat', ['v', 'X'], ['s', 'z']]}],
+          ['call', 'F$', [['cat', ['s', 'a'], ['s', 'b']]]], late={'X': '$'}),
     # recursion: direct and mutual
     _case([['X!', 2]], [{'name': 'A', 'params': ['X'], 'body': ['call', 'A', [['v', 'X']]]}],
           ['call', 'A', [['c', '1']]], route='trap'),
